@@ -1,7 +1,7 @@
 """C08 (partial): R-PROG — decoder lengths >= 1, range loops advance on every path, page walk steps to the next
 page boundary; T-LEN length granularity; READ-EXTENT."""
 from nk import report
-from rules import prog as rprog, tbl, extent
+from rules import prog as rprog, tbl, extent, caselen
 from . import common
 
 EXPLANATION = (
@@ -14,14 +14,14 @@ EXPLANATION = (
     'T-LEN: constant decoder lengths are multiples of the encoder\'s emission unit. READ-EXTENT: for every decoder read Memory::readN(address + O) with a linear offset whose value is formatted into the text by a '
     'call that lies on every path to a `return L`, (O + N - 1) - L is not a constant >= 0 (the text is not built from a byte at or '
     'beyond the reported length); reads that are only tested (a longer form tried first, fallback to a shorter one) are listed as '
-    'observations. Not decided: text stays inside the buffer, independence from following bytes that are only tested, '
+    'observations. GUARD-LEN: constant returns under a test of the length column of the matched row equal that length. Not decided: text stays inside the buffer, independence from following bytes that are only tested, '
     'the upper bound on lengths.')
 
 
 def run(tier, t0):
     prog = common.program()
     cg = common.callgraph()
-    results = [rprog.run(prog, cg), tbl.tlen(prog, cg), extent.read_extent(prog, cg)]
+    results = [rprog.run(prog, cg), tbl.tlen(prog, cg), extent.read_extent(prog, cg), caselen.guard_len(prog)]
     return report.finish('C08', tier, results, EXPLANATION,
                          ['opcode tables are not modified at run time (checked: no store to them exists)',
                           'a lower bound that the interval domain cannot establish is reported as an observation, '
